@@ -105,6 +105,62 @@ pub fn history<P: Program, S: Source>(s: &mut S, p: &P, leaves: &[Leaf], steps: 
     forget((b.arrays, live));
 }
 
+/// two passes through the same point-wise node (its backward closure may cache values): the
+/// second pass must deliver the same derivative as the first
+pub fn pointwise_twice<S: Source>(s: &mut S, which: usize) {
+    let a = mk(s, &[2], if which == 1 { Dom::Sgn } else { Dom::D2 }).tracked();
+    let r = match which {
+        0 => a.sigmoid(),
+        1 => a.relu(),
+        2 => a.exp(),
+        _ => a.powf(2.0),
+    };
+    let seed1 = s.vals(2, Dom::D4);
+    let seed2 = s.vals(2, Dom::D4);
+    r.backward(Some(Array::from((vec![2], seed1.clone()))));
+    let g1: Vec<Float> = a.gradient().as_ref().unwrap().values().to_vec();
+    let cleared = a.replace_gradient();
+    r.backward(Some(Array::from((vec![2], seed2.clone()))));
+    let g2: Vec<Float> = a.gradient().as_ref().unwrap().values().to_vec();
+    for i in 0..2 {
+        // the derivative d is the same in both passes: g1 = s1*d, g2 = s2*d  =>  g1*s2 == g2*s1
+        chk!(same(g1[i] * seed2[i], g2[i] * seed1[i], true), "[c10:closure-state] a second pass through the same node used a different derivative");
+    }
+    witness();
+    forget((a, r, cleared));
+}
+
+/// a reshape to the dimensions the array already has is still a node of its own: a pass on a
+/// result that shares the leaf but not the reshaped node leaves the reshaped node's gradient
+/// alone, and clearing the node's gradient leaves the leaf's alone
+pub fn reshape_alias<S: Source>(s: &mut S) {
+    let x = mk(s, &[2], Dom::D4).tracked();
+    let w = mk(s, &[2], Dom::D4);
+    let v = mk(s, &[2], Dom::D4);
+    let y = x.reshape(vec![2]);
+    let r1 = &y * &w;
+    let r2 = &x * &v;
+    r1.backward(None);
+    r2.backward(None);
+    let gy = y.gradient();
+    chk!(gy.is_some(), "[c10:presence] gradient present iff some pass since the last clearing reached the leaf");
+    if let Some(gy) = gy.as_ref() {
+        chk!(vals_eq(gy.values(), w.values()), "[c10:sum] gradient is not the sum of the individual passes since the last clearing");
+    }
+    std::mem::drop(gy);
+    let gx = x.gradient();
+    if let Some(gx) = gx.as_ref() {
+        for i in 0..2 {
+            chk!(gx.values()[i] == w.values()[i] + v.values()[i], "[c10:sum] gradient is not the sum of the individual passes since the last clearing");
+        }
+    }
+    std::mem::drop(gx);
+    let c = y.replace_gradient();
+    chk!(x.gradient().is_some(), "[c10:clear-alias] clearing a derived node's gradient cleared the leaf's");
+    witness();
+    forget((x, w, v, y, r1, r2, c));
+}
+
 fn zero(expect: &mut [Float], b: &Built, leaves: &[Leaf], li: usize) {
     if let Some(first) = b.first_dir[li] {
         for k in 0..refmodel::numel(leaves[li].d) {
